@@ -520,3 +520,18 @@ mod tests {
         );
     }
 }
+
+#[cfg(feature = "verif")]
+impl State {
+    pub(crate) fn verif_code(&self) -> u8 {
+        match self.inner {
+            Idle => 0,
+            ReservedLocal => 1,
+            ReservedRemote => 2,
+            Open { .. } => 3,
+            HalfClosedLocal(..) => 4,
+            HalfClosedRemote(..) => 5,
+            Closed(..) => 6,
+        }
+    }
+}
